@@ -274,11 +274,12 @@ pub fn check_case(case: &C07Case) -> (Vec<Violation>, Counters, bool, Option<Wri
           fail_kind: fail_kind.clone(),
           ..Default::default()
         });
-        // short writes
+        // short writes (into a sink with its own write_vectored for odd k)
         plans.push(WriterPlan {
           fail_at: Some(k),
           fail_kind: fail_kind.clone(),
           max_chunk: case.max_chunk.max(1),
+          vectored: k % 2 == 1,
           ..Default::default()
         });
         // short writes + EINTR bursts
@@ -312,6 +313,14 @@ pub fn check_case(case: &C07Case) -> (Vec<Violation>, Counters, bool, Option<Wri
         eintr_burst: case.eintr_burst.max(1),
         ..Default::default()
       });
+      // fragmentation only, scatter/gather sink, every chunk size up to 7
+      for m in 1..=7 {
+        plans.push(WriterPlan {
+          max_chunk: m,
+          vectored: true,
+          ..Default::default()
+        });
+      }
       plans.extend(case.mixed.iter().cloned());
     }
   }
@@ -328,6 +337,7 @@ pub fn check_case(case: &C07Case) -> (Vec<Violation>, Counters, bool, Option<Wri
         counters.add("fault:transient_write_error_fired", io.hard_errors);
       }
       counters.add("probe:write_calls_after_error", io.calls_after_error);
+      counters.add("probe:write_vectored_calls", io.vectored_calls);
     }
     if let Some(d) = judge_written(&a, plan, &bytes) {
       violations.push(Violation {
@@ -478,6 +488,7 @@ impl C07 {
         max_chunk: 1 + rng.below(5) as u32,
         eintr_every: if rng.chance(600) { 1 + rng.below(3) as u32 } else { 0 },
         eintr_burst: 1 + rng.below(2) as u32,
+        vectored: rng.chance(400),
         ..Default::default()
       },
       match rng.below(4) {
@@ -587,7 +598,7 @@ impl Property for C07 {
     (serde_json::to_value(&cur).unwrap(), from)
   }
   fn rule(&self) -> String {
-    "case = one source tree over all eight source types (both binary leaf types with invalid UTF-8, ConcatSource built by new / add-later / nested typed, ReplaceSource, CachedSource, user-defined and re-boxed children) drawn from splitmix(VERIF_SEED, run index). Per tree: the four views are compared with a structural content model, then to_writer is executed once per failure offset k in 0..=len+1 in five modes (whole-buffer, short writes, short writes + EINTR bursts, a transient failure after which the sink accepts again, Ok(0) at k) plus fragmentation-only and seeded mixed plans; exhaustive in k per tree for trees up to 600 bytes (3 % of the trees carry an 8-20 KiB leaf and use the offsets around every power-of-two boundary plus a seeded sample), trees sampled (1% are a ConcatSource of 31 .. 1028 tiny children, the count next to a power of two). Histories that start with the writer: two plans (fragmented + interrupted; failing / full / transient / one EINTR) are each the first call on a fresh object of the same tree, followed by the four views and a fault-free to_writer. distinct_nontrivial = distinct composite trees with non-empty content.".into()
+    "case = one source tree over all eight source types (both binary leaf types with invalid UTF-8, ConcatSource built by new / add-later / nested typed, ReplaceSource, CachedSource, user-defined and re-boxed children) drawn from splitmix(VERIF_SEED, run index). Per tree: the four views are compared with a structural content model, then to_writer is executed once per failure offset k in 0..=len+1 in five modes (whole-buffer, short writes — for odd k into a sink that implements write_vectored itself —, short writes + EINTR bursts, a transient failure after which the sink accepts again, Ok(0) at k) plus fragmentation-only plans (also seven scatter/gather sinks accepting 1..7 bytes per call) and seeded mixed plans; exhaustive in k per tree for trees up to 600 bytes (3 % of the trees carry an 8-20 KiB leaf and use the offsets around every power-of-two boundary plus a seeded sample), trees sampled (1% are a ConcatSource of 31 .. 1028 tiny children, the count next to a power of two). Histories that start with the writer: two plans (fragmented + interrupted; failing / full / transient / one EINTR) are each the first call on a fresh object of the same tree, followed by the four views and a fault-free to_writer. distinct_nontrivial = distinct composite trees with non-empty content.".into()
   }
   fn assumptions(&self) -> Vec<String> {
     vec![
